@@ -204,6 +204,7 @@ func (s *Spec) reset() {
 func (s *Spec) reload() {
 	s.reset()
 	s.initialize()
+	verifEmit("reload", s.spec)
 }
 
 func (s *Spec) initialize() {
